@@ -149,6 +149,8 @@ Record t_in := {
   t_verify : bool;
   t_dix : option rindex;                     (* dest_index as transfer() finds it; None = not given *)
   t_six : option rindex;                     (* src_index as transfer() finds it *)
+  t_dnoop : bool;                            (* dest_index is an ObjectDBIndexNoop: given, but it stores nothing *)
+  t_snoop : bool;                            (* src_index  is an ObjectDBIndexNoop *)
   t_fails : oid -> bool;                     (* oracle: this upload raises *)
   t_part : oid -> bool;                      (* oracle: ... after part of the bytes were written under
                                                 the final name (a file system with non-atomic uploads) *)
@@ -189,21 +191,24 @@ Definition ix_dirs (ix : rindex) : list oid :=
   filter (fun o => match ix_get o ix with Some true => true | _ => false end) (ix_keys ix).
 
 (* the loop of _indexed_dir_hashes over dir_exists: yielded ids and the index afterwards
-   (inl 3: a directory object present in odb does not parse in cache_odb).  Non-shallow runs
+   (inl 3: a directory object present in odb does not parse in cache_odb).  [noop]: the index is
+   an ObjectDBIndexNoop - "d not in index" is always true and update() stores nothing, but the
+   files of a present directory are still yielded as existing without being probed (this is
+   how a fetch with a remote index - real or no-op - comes to "know" a file the remote lost).  Non-shallow runs
    use the tree loaded by the collection loop from the same cache_odb, so one [load] serves
    both modes.  The loop runs in request order; for flat listings (no listed id is a
    directory id) the resulting index does not depend on the order. *)
-Fixpoint indexed_loop (parse : bytes -> option (list oid)) (cache : store) (dirs : list oid)
+Fixpoint indexed_loop (noop : bool) (parse : bytes -> option (list oid)) (cache : store) (dirs : list oid)
          (ix : rindex) : N + (list oid * rindex) :=
   match dirs with
   | [] => inr ([], ix)
   | d :: r =>
       match load parse cache d with
-      | LoadMissing => indexed_loop parse cache r ix
+      | LoadMissing => indexed_loop noop parse cache r ix
       | LoadCorrupt => inl 3
       | LoadOk l =>
-          let ix' := if ix_has ix d then ix else ix_update d l ix in
-          match indexed_loop parse cache r ix' with
+          let ix' := if noop || ix_has ix d then ix else ix_update d l ix in
+          match indexed_loop noop parse cache r ix' with
           | inl k => inl k
           | inr (y, ix'') => inr (l ++ d :: y, ix'')
           end
@@ -213,7 +218,7 @@ Fixpoint indexed_loop (parse : bytes -> option (list oid)) (cache : store) (dirs
 (* status(odb, req, index, cache_odb, shallow): exists, missing, index afterwards.
    [has odb] stands for odb.oids_exist / odb.list_oids_exists (environment: they answer
    "is there an object under this id"). *)
-Definition status_ix (parse : bytes -> option (list oid)) (odb cache : store)
+Definition status_ix (noop : bool) (parse : bytes -> option (list oid)) (odb cache : store)
            (ix : option rindex) (shallow : bool) (req : list oid)
   : N + (list oid * list oid * option rindex) :=
   match collect parse cache shallow req with
@@ -228,7 +233,7 @@ Definition status_ix (parse : bytes -> option (list oid)) (odb cache : store)
                     | [] => x
                     | _ :: _ => if forallb (has odb) (ix_dirs x) then x else []
                     end in
-          match indexed_loop parse cache (filter (has odb) rdirs) x1 with
+          match indexed_loop noop parse cache (filter (has odb) rdirs) x1 with
           | inl k => inl k
           | inr (y, x2) =>
               let ex1 := filter (fun o => mem o y) hashes in
@@ -245,13 +250,13 @@ Record cmp := { c_ok : list oid; c_missing : list oid; c_new : list oid; c_delet
 
 (* compare_status(check_deleted=False): the four sets and both indexes afterwards *)
 Definition compare_status (i : t_in) : N + (cmp * option rindex * option rindex) :=
-  match status_ix (t_parse i) (t_dst i) (status_cache i) (t_dix i) (t_shallow i) (t_req i) with
+  match status_ix (t_dnoop i) (t_parse i) (t_dst i) (status_cache i) (t_dix i) (t_shallow i) (t_req i) with
   | inl k => inl k
   | inr (dex, dmiss, dix') =>
       match dmiss with
       | [] => inr ({| c_ok := dex; c_missing := []; c_new := []; c_deleted := [] |}, dix', t_six i)
       | _ :: _ =>
-          match status_ix (t_parse i) (t_src i) (t_src i) (t_six i) (t_shallow i) (t_req i) with
+          match status_ix (t_snoop i) (t_parse i) (t_src i) (t_src i) (t_six i) (t_shallow i) (t_req i) with
           | inl k => inl k
           | inr (sex, smiss, six') =>
               inr ({| c_ok := inter sex dex; c_missing := inter smiss dmiss;
@@ -346,7 +351,7 @@ Definition do_transfer (i : t_in) (new missing : list oid) : list event * option
     let evs := d_events r ++ add_events i (d_files r) in
     match failed with
     | _ :: _ => (evs ++ [SrcIndexClear], Some failed)
-    | [] => (evs ++ map (fun p => IndexUpdate (fst p) (snd p)) (d_succ r), Some [])
+    | [] => (evs ++ (if t_dnoop i then [] else map (fun p => IndexUpdate (fst p) (snd p)) (d_succ r)), Some [])
     end
   else (d_events r, None).
 
@@ -477,6 +482,8 @@ Record round := {
   r_verify : bool;
   r_dix : option rindex;
   r_six : option rindex;
+  r_dnoop : bool;
+  r_snoop : bool;
   r_fails : list oid;
   r_partial : list (oid * bytes);           (* failing uploads that leave these truncated bytes *)
   r_dirorder : list oid;                    (* observed order of the directory loop *)
@@ -494,7 +501,7 @@ Definition mk_in (s : static) (r : round) : t_in :=
      t_parse := fun b => assoc_bytes b (s_parse s);
      t_corrupt := fun o => mem o (s_corrupt s);
      t_req := r_req r; t_shallow := r_shallow r; t_verify := r_verify r;
-     t_dix := r_dix r; t_six := r_six r;
+     t_dix := r_dix r; t_six := r_six r; t_dnoop := r_dnoop r; t_snoop := r_snoop r;
      t_fails := fun o => mem o (r_fails r);
      t_part := fun o => mem o (map fst (r_partial r));
      t_trunc := fun o => match assoc_bytes o (r_partial r) with Some b => b | None => [] end;
